@@ -171,6 +171,64 @@ func H_Objects() {
 	}
 }
 
+const classNode = "定义节点：\n    其号 = 0\n    其值 = 0\n    其下家 = 空\n" +
+	"    如何爆？\n        令无用 = 以“abc”（取样：0、1）\n" +
+	"    如何传一？\n        以其下家（爆）\n" +
+	"    如何传二？\n        以其下家（传一）\n" +
+	"    如何探零？\n        以其下家（爆）\n        拦截异常：\n            输出 100\n" +
+	"    如何探一？\n        以其下家（传一）\n        拦截异常：\n            输出 100\n" +
+	"    如何探二？\n        以其下家（传二）\n        拦截异常：\n            输出 100\n" +
+	"    如何账零？\n        输入D\n        令R = 以其下家（探零）\n        其值 = 其值 + D\n        输出 其号 + R\n" +
+	"    如何账一？\n        输入D\n        令R = 以其下家（探一）\n        其值 = 其值 + D\n        输出 其号 + R\n" +
+	"    如何账二？\n        输入D\n        令R = 以其下家（探二）\n        其值 = 其值 + D\n        输出 其号 + R\n" +
+	"如何新建节点？\n    输入号、下家\n    其号 = 号\n    其下家 = 下家\n" +
+	"令戊 = （新建节点：5、空）\n令丁 = （新建节点：4、戊）\n令丙 = （新建节点：3、丁）\n令乙 = （新建节点：2、丙）\n令甲 = （新建节点：1、乙）\n"
+
+// H_ReceiverAfterIntercept: after an exception raised 1, 2 or 3 calls below an
+// intercepting method, 其 in the callers still denotes each caller's own receiver.
+func H_ReceiverAfterIntercept() {
+	a := zv.Float64("A")
+	in := r.ElementMap{"A": value.NewNumber(a)}
+	var call string
+	const want = 101.0
+	switch zv.Choose(3) {
+	case 0:
+		call = "以甲（账零：A）"
+	case 1:
+		call = "以甲（账一：A）"
+	default:
+		call = "以甲（账二：A）"
+	}
+	src := "输入A\n" + classNode + call + "，得到谁\n"
+	probe := zv.Choose(6)
+	switch probe {
+	case 0:
+		src += "输出 谁"
+	case 1:
+		src += "输出 甲之值"
+	case 2:
+		src += "输出 乙之值"
+	case 3:
+		src += "输出 丙之值"
+	case 4:
+		src += "输出 丁之值"
+	default:
+		src += "输出 甲之号 * 10000 + 乙之号 * 1000 + 丙之号 * 100 + 丁之号 * 10 + 戊之号"
+	}
+	res, err, p := run(src, in)
+	zv.Assert(p == nil && err == nil, "intercepted nested failure: the program runs")
+	switch probe {
+	case 0:
+		zv.Assert(isNum(res, want), "其 after an intercepted nested failure still denotes the method's own receiver (result)")
+	case 1:
+		zv.Assert(isNum(res, 0+a), "其 after an intercepted nested failure still denotes the method's own receiver (property write)")
+	case 2, 3, 4:
+		zv.Assert(isNum(res, 0), "an intercepted nested failure does not redirect property writes to another object")
+	default:
+		zv.Assert(isNum(res, 12345), "objects keep their own properties after an intercepted nested failure")
+	}
+}
+
 // W_Witness: vacuity guard.
 func W_Witness() {
 	a := zv.Float64("A")
